@@ -92,6 +92,10 @@ class Report:
                     self.known_hit.append({"key": key, "what": what})
                     print("KNOWN-FINDING: property=%s %s" % (self.prop, k.get("what", what)), flush=True)
                 return
+        if len(self.violations) >= 25:
+            # enough witnesses; keep counting but stop writing files / lines
+            self.violations.append({"key": key, "what": what, "replay": self.violations[0]["replay"]})
+            return
         os.makedirs(REPLAY_DIR, exist_ok=True)
         path = os.path.join(REPLAY_DIR, "%s_%d.json" % (self.prop, len(self.violations)))
         with open(path, "w") as f:
